@@ -21,9 +21,11 @@
 //
 // On the real kernel the accepting goroutine has to lose the CPU between the two statements for
 // as long as the poller and the executor need for the upgrade, so this is a stress test: a server
-// with engine.KeepaliveTime = 300 ms and Upgrader.KeepaliveTime = 0, clients that send the upgrade
-// request in the same breath as the connect and then stay silent for 900 ms. No WebSocket
-// connection may be closed by the server in that time. Needs loopback networking:
+// with engine.KeepaliveTime = 600 ms and Upgrader.KeepaliveTime = 0, clients that send the upgrade
+// request in the same breath as the connect and then stay silent for 1.8 s. Only connections whose
+// 101 response arrived LESS THAN HALF an HTTP keep-alive time after the connect are judged - the
+// accept-time deadline cannot have expired before their upgrade was complete, however starved the
+// process is -; none of them may be closed by the server. Needs loopback networking:
 //
 //	cd /verif && GOFLAGS=-mod=mod GOPROXY=off unshare -rn bash -c 'ip link set lo up; go test -count=1 -timeout 10m ./notes/repro/C16_accept_arming_overrides_upgrade_deadline/'
 //
@@ -31,7 +33,9 @@
 // FAILS. Deterministic evidence is the replay file of the check
 // (replays/C16-accept-arming-overrides-upgrade-deadline.json).
 //
-// Possible repair: arm the accept-time deadline before engine.AddConn (SetReadDeadline needs c.p,
+// Status: repaired in /repo by b524243 (the accept-time deadline is armed in the core engine's open
+// hook, which runs before the descriptor is added to the poller); the test SKIPs since then.
+// Original repair idea: arm the accept-time deadline before engine.AddConn (SetReadDeadline needs c.p,
 // so the order inside nbio.Engine.AddConn would have to offer a "deadline at registration"), or
 // let the late arming only apply when no request has been processed yet (under the parser lock).
 package repro
@@ -71,7 +75,7 @@ func TestAcceptArmingOverridesUpgradeDeadline(t *testing.T) {
 	addr := probe.Addr().String()
 	_ = probe.Close()
 
-	const httpKeepalive = 300 * time.Millisecond
+	const httpKeepalive = 600 * time.Millisecond
 	var upgraded, timedOut int64
 	up := websocket.NewUpgrader()
 	up.KeepaliveTime = 0 // keep-alive disabled on the WebSocket connections
@@ -139,6 +143,10 @@ func TestAcceptArmingOverridesUpgradeDeadline(t *testing.T) {
 					head = append(head, buf[:n]...)
 				}
 				if !bytes.HasPrefix(head, []byte("HTTP/1.1 101")) {
+					_ = c.Close()
+					continue
+				}
+				if time.Since(start) >= httpKeepalive/2 {
 					_ = c.Close()
 					continue
 				}
